@@ -2,6 +2,7 @@ package seccomp
 
 import (
 	"strconv"
+	"strings"
 
 	"golang.org/x/net/bpf"
 )
@@ -10,6 +11,13 @@ func init() {
 	vRegister("H_Policy", H_Policy)
 	vRegister("H_Cond", H_Cond)
 	vRegister("H_Lemma", H_Lemma)
+}
+
+// vWants reports whether obligations of property id are wanted by this run
+// (parameter "props": space-separated ids; empty = all).
+func vWants(id string) bool {
+	ps := vParamStr("props")
+	return ps == "" || strings.Contains(ps, id)
 }
 
 // vCompile runs the real compiler and the real raw encoder.
@@ -64,6 +72,9 @@ func H_Policy() {
 	}
 	x86 := uint32(p.info.ID) == 0xc000003e
 	for i, ins := range raw {
+		if !vWants("C05") {
+			break
+		}
 		if ins.Op == 0x06 {
 			in := ins.K == vEnc(p.def)
 			for _, g := range p.groups {
@@ -88,10 +99,12 @@ func H_Policy() {
 	vObs("want", uint64(want))
 
 	foreign := ev.arch != uint32(p.info.ID)
-	vAssert(vImplies(foreign, ret == vEnc(p.def)), "C04.foreign")
-	vAssert(vImplies(foreign, vNot(argLoad)), "C04.foreign_no_arg_load")
-	vReach(foreign, "cover.foreign")
-	if x86 {
+	if vWants("C04") {
+		vAssert(vImplies(foreign, ret == vEnc(p.def)), "C04.foreign")
+		vAssert(vImplies(foreign, vNot(argLoad)), "C04.foreign_no_arg_load")
+		vReach(foreign, "cover.foreign")
+	}
+	if x86 && vWants("C04") {
 		x32 := vAnd(vNot(foreign), ev.nr >= kX32Bit)
 		vAssert(vImplies(x32, ret == kRetErrno|kENOSYS), "C04.x32")
 		vAssert(vImplies(x32, vNot(argLoad)), "C04.x32_no_arg_load")
@@ -105,6 +118,9 @@ func H_Policy() {
 	tag := "C01.decision"
 	if vParamInt("hascond") == 1 {
 		tag = "C03.decision"
+	}
+	if !vWants(tag[:3]) {
+		return
 	}
 	vKnownDecision(p, ev, ret, want)
 	vAssert(vImplies(inScope, ret == want), tag)
